@@ -434,6 +434,7 @@ func (e *Exec) wgOf(c *Cell) *wgState {
 // ---- channels ----
 
 type waiter struct {
+	parked bool // the scheduler has committed to "this goroutine is parked in the wait queue" (see notYetParked)
 	fired int
 	val   Value
 	ok    bool
@@ -527,6 +528,9 @@ func (e *Exec) selectOp(cases []*selCase, blocking bool) (int, Value, bool) {
 	var rs []int
 	for i, sc := range cases {
 		if ready(sc) {
+			if !blocking && e.notYetParked(sc, partner) {
+				continue
+			}
 			rs = append(rs, i)
 		}
 	}
@@ -585,6 +589,40 @@ func (e *Exec) selectOp(cases []*selCase, blocking bool) (int, Value, bool) {
 	}
 	e.acquire(c.cvc)
 	return rs[k], nil, false
+}
+
+// notYetParked: a non-blocking send/receive (select with default) on an unbuffered channel
+// succeeds only if the partner is already parked in the channel's wait queue. A goroutine that has
+// arrived at its blocking operation parks at once unless it is preempted right there - the window
+// in which a non-blocking wake-up token is lost. The engine registers a waiter when its goroutine
+// arrives, so here the scheduler decides (at the price of one preemption, within the bound)
+// whether the partner had parked or is still in that window; in the latter case the non-blocking
+// operation does not find it.
+func (e *Exec) notYetParked(sc *selCase, partner func([]*selCase) *selCase) bool {
+	c := sc.c
+	if c == nil || c.cap != 0 || c.closed || e.cfg.Canonical {
+		return false
+	}
+	q := c.recvq
+	if !sc.send {
+		q = c.sendq
+	}
+	p := partner(q)
+	if p == nil || p.w.parked {
+		return false
+	}
+	s := e.sch
+	if s.preemptions >= s.bound {
+		p.w.parked = true
+		return false
+	}
+	if e.chooseN(2, nil) == 0 {
+		p.w.parked = true
+		return false
+	}
+	s.preemptions++
+	e.slog("partner g%d not parked yet on ch%d", p.w.g.id, c.id)
+	return true
 }
 
 func (e *Exec) chanSend(c *Chan, v Value) {
